@@ -528,3 +528,498 @@ Proof.
   rewrite <- Es0 in *.
   exact (proj1 (connect_fold_reg C _ _ _ _ _ _ _ _ _ _ R NR RO A N Hfold)).
 Qed.
+
+Lemma in_snoc2 {A} (l : list A) (x1 x2 y : A) : In y (l ++ [x1; x2]) -> In y l \/ y = x1 \/ y = x2.
+Proof. intros H. apply in_app_or in H. destruct H as [H|[H|[H|[]]]]; auto. Qed.
+
+(* a new node record: fresh node id, two fresh numbers *)
+Lemma rok_new_node C e e' R NR r rc :
+  rok C e R NR ->
+  innovs e' = innovs e ++ [r] -> next_innov e' = next_innov e + 1 + 1 -> next_node e' = next_node e + 1 ->
+  i_type r = 1 -> i_num r = next_innov e + 1 -> i_num2 r = next_innov e + 1 + 1 -> i_node r = next_node e + 1 ->
+  In (i_old r, (i_in r, i_out r, rc)) R ->
+  find_node_innov (innovs e) (i_in r) (i_out r) (i_old r) = None ->
+  let R' := R ++ [(next_innov e + 1, (i_in r, next_node e + 1, rc));
+                  (next_innov e + 1 + 1, (next_node e + 1, i_out r, false))] in
+  let NR' := NR ++ [(next_node e + 1, HIDDEN)] in
+  rok C e' R' NR' /\ ext e e' R R' NR NR'.
+Proof.
+  intros [A B D E F G H I J K] Ei En Enn Ht Hn1 Hn2 Hnd Hold Hnone R' NR'. split.
+  - constructor; rewrite ?Ei, ?En, ?Enn; try assumption.
+    + intros a b b' H1 H2. apply in_snoc2 in H1. apply in_snoc2 in H2.
+      destruct H1 as [H1|[H1|H1]], H2 as [H2|[H2|H2]];
+        try (eapply A; now eauto); try congruence;
+        exfalso; repeat match goal with H : In (_, _) R |- _ => apply E in H end;
+        repeat match goal with H : (_, _) = (_, _) |- _ => apply (f_equal fst) in H; cbn [fst] in H end; lia.
+    + intros a b b' H1 H2. apply in_snoc in H1. apply in_snoc in H2.
+      destruct H1 as [H1|H1], H2 as [H2|H2].
+      * eapply B; eauto.
+      * injection H2 as -> ->. specialize (F _ _ H1). lia.
+      * injection H1 as -> ->. specialize (F _ _ H2). lia.
+      * congruence.
+    + lia.
+    + intros n k Hin. apply in_snoc2 in Hin. destruct Hin as [Hin|[Hin|Hin]].
+      * specialize (E _ _ Hin). lia.
+      * injection Hin as -> ->. lia.
+      * injection Hin as -> ->. lia.
+    + intros i t Hin. apply in_snoc in Hin. destruct Hin as [Hin|Hin].
+      * specialize (F _ _ Hin). lia.
+      * injection Hin as -> ->. lia.
+    + intros i t Hin Hio. apply in_snoc in Hin. destruct Hin as [Hin|Hin]; [now apply G|].
+      injection Hin as -> ->. discriminate.
+    + intros i Hin Hti. apply in_snoc in Hin. destruct Hin as [Hin| ->]; [|congruence].
+      apply in_or_app. left. now apply H.
+    + intros i Hin Hti. apply in_snoc in Hin. destruct Hin as [Hin| ->].
+      * destruct (I i Hin Hti) as (I1 & I2 & rc' & I3 & I4). split; [apply in_or_app; now left|].
+        split; [apply in_or_app; now left|]. exists rc'. split; apply in_or_app; now left.
+      * rewrite Hn1, Hn2, Hnd. split; [apply in_or_app; right; now left|].
+        split; [apply in_or_app; right; right; now left|].
+        exists rc. split; [apply in_or_app; now left|apply in_or_app; right; now left].
+    + intros i j Hi Hj Hti Htj E1 E2 E3. apply in_snoc in Hi. apply in_snoc in Hj.
+      destruct Hi as [Hi| ->], Hj as [Hj| ->]; [now apply J|congruence|congruence|reflexivity].
+    + intros i j Hi Hj Hti Htj E1 E2 E3. apply in_snoc in Hi. apply in_snoc in Hj.
+      destruct Hi as [Hi| ->], Hj as [Hj| ->]; [now apply K| | |reflexivity]; exfalso.
+      * apply (fni_none _ _ _ _ Hnone i Hi Hti); assumption.
+      * apply (fni_none _ _ _ _ Hnone j Hj Htj); auto.
+  - constructor; try lia.
+    + apply incl_appl, incl_refl.
+    + apply incl_appl, incl_refl.
+    + intros n k Hin. apply in_snoc2 in Hin. destruct Hin as [Hin|[Hin|Hin]]; [now left| |];
+        injection Hin as -> ->; right; lia.
+    + intros i t Hin. apply in_snoc in Hin. destruct Hin as [Hin|Hin]; [now left|]. injection Hin as -> ->. right. lia.
+Qed.
+
+Lemma set_nth_sig {A B} (f : A -> B) (l : list A) k x y :
+  nth_error l k = Some x -> f y = f x -> forall z, In z (set_nth l k y) -> exists z0, In z0 l /\ f z0 = f z.
+Proof.
+  intros Hn Hf z Hz. apply set_nth_In in Hz. destruct Hz as [->|Hz]; [|now exists z].
+  exists x. split; [eapply nth_error_In; eauto|now symmetry].
+Qed.
+
+Lemma split_genome_genes g k x nd n1 n2 z :
+  In z (genes (split_genome g k x nd n1 n2)) ->
+  z = mk_gene (g_trait x) (g_w x) (n_id nd) (g_out x) false n2 0%float \/
+  z = mk_gene (g_trait x) 1%float (g_in x) (n_id nd) (g_rec x) n1 0%float \/
+  In z (set_nth (genes g) k (set_en false x)).
+Proof.
+  unfold split_genome. cbn [genes]. intros H.
+  apply (insert_sorted_In g_innov) in H. destruct H as [H|H]; [now left|].
+  apply (insert_sorted_In g_innov) in H. destruct H as [H|H]; auto.
+Qed.
+
+Lemma split_genome_keeps g k x nd n1 n2 n :
+  nth_error (genes g) k = Some x ->
+  In n (map g_innov (genes g)) -> In n (map g_innov (genes (split_genome g k x nd n1 n2))).
+Proof.
+  intros Hk H. unfold split_genome. cbn [genes].
+  assert (H' : In n (map g_innov (set_nth (genes g) k (set_en false x)))).
+  { rewrite (map_set_nth_same g_innov (genes g) k x (set_en false x) Hk eq_refl). exact H. }
+  apply in_map_iff in H'. destruct H' as (z & <- & Hz). apply in_map.
+  apply (insert_sorted_In g_innov). right. apply (insert_sorted_In g_innov). now right.
+Qed.
+
+Lemma disable_agrees R g k x :
+  nth_error (genes g) k = Some x -> g_agrees R g ->
+  forall z, In z (set_nth (genes g) k (set_en false x)) -> In (g_innov z, link_key z) R.
+Proof.
+  intros Hk A z Hz. apply set_nth_In in Hz. destruct Hz as [->|Hz]; [|now apply A].
+  change (In (g_innov x, link_key x) R). apply A. eapply nth_error_In; eauto.
+Qed.
+
+Lemma add_node_reg C R NR o g s g' b s' :
+  rok C (s_env s) R NR -> g_agrees R g -> n_agrees NR g ->
+  mutate_add_node o g s = Ok ((g', b), s') -> reg_step C (s_env s) (s_env s') R NR g g'.
+Proof.
+  intros RO A N H. apply add_node_inv in H.
+  destruct H as [(-> & _ & Es)|(k & x & Hk & _ & [(inn & t0 & Hf & _ & Es & [(_ & _ & ->)|(_ & _ & ->)])|
+                                                    (Hf & t0 & act & _ & _ & _ & -> & Hin & Hni & Hnn)])].
+  - now apply reg_step_refl.
+  - (* recorded, node already present: the gene stays disabled *)
+    exists R, NR. rewrite Es. split; [apply ext_refl|]. split; [exact RO|].
+    split; [intros z Hz; now apply (disable_agrees R g k x Hk A)|]. split; [exact N|]. split; [reflexivity|].
+    intros n Hn. cbn [genes with_genes]. now rewrite (map_set_nth_same g_innov (genes g) k x (set_en false x) Hk eq_refl).
+  - (* recorded: the numbers and the node id of the record *)
+    apply fni_some in Hf. destruct Hf as (Hinn & Hty & Hi & Ho & Hold).
+    destruct (ro_node _ _ _ _ RO inn Hinn Hty) as (I1 & I2 & rc & I3 & I4).
+    assert (Hx : In (g_innov x, link_key x) R) by (apply A; eapply nth_error_In; eauto).
+    assert (Hrc : rc = g_rec x).
+    { rewrite Hold, Hi, Ho in I3. pose proof (ro_fun _ _ _ _ RO _ _ _ I3 Hx) as Hk'. unfold link_key in Hk'. congruence. }
+    subst rc. exists R, NR. rewrite Es. split; [apply ext_refl|]. split; [exact RO|]. split; [|split; [|split; [reflexivity|]]].
+    + intros z Hz. apply split_genome_genes in Hz. cbn [n_id] in Hz. destruct Hz as [->|[->|Hz]].
+      * unfold link_key. cbn. now rewrite <- Ho.
+      * unfold link_key. cbn. now rewrite <- Hi.
+      * now apply (disable_agrees R g k x Hk A).
+    + intros n Hn. unfold split_genome in Hn. cbn [nodes] in Hn. apply (insert_sorted_In n_id) in Hn.
+      destruct Hn as [->|Hn]; [exact I1|now apply N].
+    + intros n. now apply split_genome_keeps.
+  - (* a new innovation *)
+    set (e := s_env s) in *.
+    set (r := node_innovation x (next_node e + 1) (next_innov e + 1) (next_innov e + 1 + 1)) in *.
+    assert (Hx : In (g_innov x, link_key x) R) by (apply A; eapply nth_error_In; eauto).
+    destruct (rok_new_node C e (s_env s') R NR r (g_rec x) RO Hin Hni Hnn) as [RO' X]; try reflexivity; try assumption.
+    cbn [r node_innovation i_in i_out] in RO', X.
+    eexists. eexists. split; [exact X|]. split; [exact RO'|]. split; [|split; [|split; [reflexivity|]]].
+    + intros z Hz. apply split_genome_genes in Hz. cbn [n_id] in Hz. apply in_or_app. destruct Hz as [->|[->|Hz]].
+      * right. right. now left.
+      * right. now left.
+      * left. now apply (disable_agrees R g k x Hk A).
+    + intros n Hn. unfold split_genome in Hn. cbn [nodes] in Hn. apply (insert_sorted_In n_id) in Hn.
+      apply in_or_app. destruct Hn as [->|Hn]; [right; now left|left; now apply N].
+    + intros n. now apply split_genome_keeps.
+Qed.
+
+(* ------------------------------------------------------------------------------------------ *)
+(* 7. structural mutators: the full step                                                        *)
+(* ------------------------------------------------------------------------------------------ *)
+Lemma reg_step_ok C e e' R NR g g' :
+  gok C e R NR g -> reg_step C e e' R NR g g' ->
+  wf g' /\ retains_io g g' /\ env_ok e' g' /\ env_extends e e' -> step_ok C e e' R NR g'.
+Proof.
+  intros G (R' & NR' & X & RO' & A' & N' & T & F) W. eapply assemble; eauto. now apply tshape_traits.
+Qed.
+
+Section Structural.
+  Variable MH : mutators_ok.
+  Variable C : ctx.
+
+  Lemma add_node_step o R NR g s g' b s' :
+    rok C (s_env s) R NR -> gok C (s_env s) R NR g ->
+    mutate_add_node o g s = Ok ((g', b), s') -> step_ok C (s_env s) (s_env s') R NR g'.
+  Proof.
+    intros RO G H. eapply reg_step_ok; [exact G| |].
+    - eapply add_node_reg; eauto; [apply (gk_reg _ _ _ _ _ G)|apply (gk_nreg _ _ _ _ _ G)].
+    - eapply (H_add_node MH); eauto; [apply (gk_wf _ _ _ _ _ G)|apply (gk_env _ _ _ _ _ G)].
+  Qed.
+
+  Lemma add_link_step o R NR g s g' b s' :
+    rok C (s_env s) R NR -> gok C (s_env s) R NR g ->
+    mutate_add_link o g s = Ok ((g', b), s') -> step_ok C (s_env s) (s_env s') R NR g'.
+  Proof.
+    intros RO G H. eapply reg_step_ok; [exact G| |].
+    - eapply add_link_reg; eauto; [apply (gk_reg _ _ _ _ _ G)|apply (gk_nreg _ _ _ _ _ G)].
+    - eapply (H_add_link MH); eauto; [apply (gk_wf _ _ _ _ _ G)|apply (gk_env _ _ _ _ _ G)].
+  Qed.
+
+  Lemma connect_sensors_step R NR g s g' b s' :
+    rok C (s_env s) R NR -> gok C (s_env s) R NR g ->
+    mutate_connect_sensors g s = Ok ((g', b), s') -> step_ok C (s_env s) (s_env s') R NR g'.
+  Proof.
+    intros RO G H. eapply reg_step_ok; [exact G| |].
+    - eapply connect_sensors_reg; eauto; [apply (gk_reg _ _ _ _ _ G)|apply (gk_nreg _ _ _ _ _ G)].
+    - eapply (H_connect_sensors MH); eauto; [apply (gk_wf _ _ _ _ _ G)|apply (gk_env _ _ _ _ _ G)].
+  Qed.
+End Structural.
+
+(* ------------------------------------------------------------------------------------------ *)
+(* 8. crossover                                                                                 *)
+(* ------------------------------------------------------------------------------------------ *)
+Lemma ep_disable x1 x2 : env_pres (disable_draw x1 x2).
+Proof. unfold disable_draw. ep. Qed.
+Lemma ep_pick {A} (a b : A) : env_pres (pick_gt_half a b).
+Proof. unfold pick_gt_half. ep. Qed.
+Lemma ep_avg_gene g og x1 x2 : env_pres (avg_gene g og x1 x2).
+Proof. unfold avg_gene. repeat first [apply ep_pick | apply ep_disable | ep_step]. Qed.
+Lemma ep_out_of_fuel {A} : env_pres (fun _ : st => @OutOfFuel (A * st)).
+Proof. intros s a s' H. discriminate. Qed.
+
+Lemma ep_multipoint_loop : forall fuel avg g og nt p1b l1 l2 acc,
+    env_pres (multipoint_loop fuel avg g og nt p1b l1 l2 acc).
+Proof.
+  induction fuel as [|f IH]; intros avg g og nt p1b l1 l2 acc; cbn [multipoint_loop]; [apply ep_out_of_fuel|].
+  destruct l1 as [|x1 l1'], l2 as [|x2 l2'];
+    repeat first [apply IH | apply ep_avg_gene | apply ep_disable | ep_step].
+Qed.
+
+Lemma ep_mate_multipoint_gen avg g og id f1 f2 : env_pres (mate_multipoint_gen avg g og id f1 f2).
+Proof.
+  unfold mate_multipoint_gen. destruct (negb _); [apply ep_fail|].
+  destruct (modules g), (modules og); try apply ep_fail.
+  repeat first [apply ep_multipoint_loop | ep_step].
+Qed.
+
+Lemma ep_singlepoint_loop : forall fuel g a b nt cross l1 l2 counter cs acc,
+    env_pres (singlepoint_loop fuel g a b nt cross l1 l2 counter cs acc).
+Proof.
+  induction fuel as [|f IH]; intros g a b nt cross l1 l2 counter cs acc; cbn [singlepoint_loop]; [apply ep_out_of_fuel|].
+  destruct l2 as [|x2 l2']; [apply ep_ret|]. destruct l1 as [|x1 l1'];
+    repeat first [apply IH | apply ep_avg_gene | ep_step].
+Qed.
+
+Lemma ep_mate_singlepoint g og id : env_pres (mate_singlepoint g og id).
+Proof.
+  unfold mate_singlepoint. destruct (negb _); [apply ep_fail|].
+  destruct (modules g), (modules og); try apply ep_fail.
+  apply ep_bind; [ep|intros nt]. apply ep_bind; [ep|intros ns0].
+  destruct (Nat.ltb _ _); repeat first [apply ep_singlepoint_loop | ep_step].
+Qed.
+
+Lemma mean_traits_tshape p1 p2 :
+  Forall2 (fun a b => length (t_params a) = length (t_params b)) (traits p1) (traits p2) ->
+  map (fun t => (t_id t, length (t_params t))) (mean_traits p1 p2) = tshape p1.
+Proof.
+  unfold mean_traits, tshape. induction 1 as [|a b ta tb Hab _ IH]; [reflexivity|].
+  cbn [combine map fst snd]. rewrite IH. f_equal. unfold trait_mean. cbn [t_id t_params].
+  rewrite map_length, combine_length, <- Hab, Nat.min_id. reflexivity.
+Qed.
+
+Lemma sp_child_facts p1 p2 c :
+  relatives p1 p2 ->
+  (forall x1 x2, hd_error (genes p1) = Some x1 -> hd_error (genes p2) = Some x2 -> g_innov x1 = g_innov x2) ->
+  sp_post p1 p2 c -> child_facts p1 p2 c.
+Proof.
+  intros R Hfirst [M [T [A [P [N1 [N2 [N3 [N4 [NE [_ [L [GT NT]]]]]]]]]]]].
+  pose proof (wf_nonempty _ (rel_wf1 _ _ R)) as G1. pose proof (wf_nonempty _ (rel_wf2 _ _ R)) as G2.
+  constructor; auto.
+  - intros y Hy. destruct (P y Hy) as [[x [Hx [K _]]]|[x1 [x2 [Hx [_ [_ [K _]]]]]]]; eauto.
+  - destruct (genes p1) as [|x1 l1] eqn:E1; [congruence|]. destruct (genes p2) as [|x2 l2] eqn:E2; [congruence|].
+    destruct (NE x1 x2 eq_refl eq_refl (Hfirst x1 x2 eq_refl eq_refl)) as [y [Hy _]].
+    intros E. rewrite E in Hy. destruct Hy.
+Qed.
+
+(* a child built from genes and nodes of two parents that satisfy the invariant satisfies it *)
+Lemma child_gok C e R NR p1 p2 c :
+  rok C e R NR -> gok C e R NR p1 -> gok C e R NR p2 -> child_facts p1 p2 c ->
+  In (c_n0 C) (map g_innov (genes c)) -> gok C e R NR c.
+Proof.
+  intros RO G1 G2 F Hfirst.
+  pose proof (gok_relatives _ _ _ _ _ _ RO G1 G2) as Rel.
+  destruct (child_wf p1 p2 c Rel F) as (W & IO1 & IO2).
+  assert (Horig : forall y, In y (genes c) -> exists x p, (p = p1 \/ p = p2) /\ In x (genes p) /\ kin x y).
+  { intros y Hy. destruct (cf_origin _ _ _ F y Hy) as (x & [Hx|Hx] & K); [exists x, p1|exists x, p2]; auto. }
+  assert (Hpar : forall p, p = p1 \/ p = p2 -> gok C e R NR p) by (intros p [->| ->]; assumption).
+  assert (Hnsrc : forall n, In n (nodes c) -> exists m p, (p = p1 \/ p = p2) /\ In m (nodes p) /\
+                                                         n_id m = n_id n /\ n_type m = n_type n).
+  { intros n Hn. destruct (cf_nsrc _ _ _ F n Hn) as (m & [Hm|Hm] & Ei & Et & _); [exists m, p1|exists m, p2]; auto. }
+  constructor.
+  - exact W.
+  - pose proof (gk_env _ _ _ _ _ G1) as E1. constructor.
+    + intros y Hy. destruct (Horig y Hy) as (x & p & Hp & Hx & (K1 & _)). rewrite K1.
+      apply (eo_innov _ _ (gk_env _ _ _ _ _ (Hpar p Hp))). exact Hx.
+    + intros n Hn. destruct (Hnsrc n Hn) as (m & p & Hp & Hm & Ei & _). rewrite <- Ei.
+      apply (eo_node _ _ (gk_env _ _ _ _ _ (Hpar p Hp))). exact Hm.
+    + intros i y Hi Ht Hy Hnum. destruct (Horig y Hy) as (x & p & Hp & Hx & (K1 & K2 & K3 & K4)).
+      unfold link_key. rewrite K2, K3, K4.
+      apply (eo_link _ _ (gk_env _ _ _ _ _ (Hpar p Hp)) i x); auto. congruence.
+    + intros i y Hi Ht Hy. destruct (Horig y Hy) as (x & p & Hp & Hx & (K1 & K2 & K3 & K4)).
+      rewrite K1, K2, K3. apply (eo_split _ _ (gk_env _ _ _ _ _ (Hpar p Hp)) i x); auto.
+    + apply (eo_rec _ _ E1).
+    + apply (eo_uniq _ _ E1).
+  - intros y Hy. destruct (Horig y Hy) as (x & p & Hp & Hx & (K1 & K2 & K3 & K4)).
+    unfold link_key. rewrite K1, K2, K3, K4. apply (gk_reg _ _ _ _ _ (Hpar p Hp)). exact Hx.
+  - intros n Hn. destruct (Hnsrc n Hn) as (m & p & Hp & Hm & Ei & Et). rewrite <- Ei, <- Et.
+    apply (gk_nreg _ _ _ _ _ (Hpar p Hp)). exact Hm.
+  - eapply incl_tran; [apply (gk_io _ _ _ _ _ G1)|exact IO1].
+  - unfold tshape. rewrite (cf_traits _ _ _ F), mean_traits_tshape; [apply (gk_tshape _ _ _ _ _ G1)|apply (rel_tpar _ _ Rel)].
+  - exact Hfirst.
+Qed.
+
+Lemma first_gene C e R NR g : rok C e R NR -> gok C e R NR g ->
+  exists x, In x (genes g) /\ g_innov x = c_n0 C.
+Proof.
+  intros RO G. pose proof (gk_first _ _ _ _ _ G) as H. apply in_map_iff in H. destruct H as (x & E & Hx). eauto.
+Qed.
+
+Theorem mate_multipoint_gen_gok C e R NR avg p1 p2 id f1 f2 s c s' :
+  rok C e R NR -> gok C e R NR p1 -> gok C e R NR p2 ->
+  mate_multipoint_gen avg p1 p2 id f1 f2 s = Ok (c, s') -> s_env s' = s_env s /\ gok C e R NR c.
+Proof.
+  intros RO G1 G2 H. split; [exact (ep_mate_multipoint_gen _ _ _ _ _ _ _ _ _ H)|].
+  pose proof (gok_relatives _ _ _ _ _ _ RO G1 G2) as Rel.
+  pose proof (mp_post_holds avg p1 p2 id f1 f2 s s' c (relatives_mate_hyps _ _ Rel) H) as P.
+  apply (child_gok C e R NR p1 p2 c RO G1 G2 (mp_child_facts avg p1 p2 f1 f2 c Rel P)).
+  destruct P as [_ [_ [_ [_ [Hmat _]]]]].
+  destruct (first_gene _ _ _ _ _ RO G1) as (x1 & Hx1 & E1). destruct (first_gene _ _ _ _ _ RO G2) as (x2 & Hx2 & E2).
+  destruct (Hmat x1 x2 Hx1 Hx2 (eq_trans E1 (eq_sym E2))) as (y & Hy & (K1 & _) & _).
+  apply in_map_iff. exists y. split; [congruence|exact Hy].
+Qed.
+
+Theorem mate_singlepoint_gok C e R NR p1 p2 id s c s' :
+  rok C e R NR -> gok C e R NR p1 -> gok C e R NR p2 ->
+  mate_singlepoint p1 p2 id s = Ok (c, s') -> s_env s' = s_env s /\ gok C e R NR c.
+Proof.
+  intros RO G1 G2 H. split; [exact (ep_mate_singlepoint _ _ _ _ _ _ H)|].
+  pose proof (gok_relatives _ _ _ _ _ _ RO G1 G2) as Rel.
+  pose proof (wf_nonempty _ (rel_wf1 _ _ Rel)) as N1. pose proof (wf_nonempty _ (rel_wf2 _ _ Rel)) as N2.
+  pose proof (sp_post_holds p1 p2 id s s' c (relatives_mate_hyps _ _ Rel) N1 N2 H) as P.
+  assert (Hfirst : forall x1 x2, hd_error (genes p1) = Some x1 -> hd_error (genes p2) = Some x2 -> g_innov x1 = g_innov x2).
+  { intros x1 x2 H1 H2. rewrite (gok_hd _ _ _ _ _ _ RO G1 H1), (gok_hd _ _ _ _ _ _ RO G2 H2). reflexivity. }
+  apply (child_gok C e R NR p1 p2 c RO G1 G2 (sp_child_facts p1 p2 c Rel Hfirst P)).
+  destruct P as [_ [_ [_ [_ [_ [_ [_ [_ [NE _]]]]]]]]].
+  destruct (genes p1) as [|x1 l1] eqn:E1; [congruence|]. destruct (genes p2) as [|x2 l2] eqn:E2; [congruence|].
+  destruct (NE x1 x2 eq_refl eq_refl (Hfirst x1 x2 eq_refl eq_refl)) as (y & Hy & (K1 & _) & _).
+  apply in_map_iff. exists y. split; [|exact Hy]. rewrite K1. apply (gok_hd _ _ _ _ _ _ RO G1). now rewrite E1.
+Qed.
+
+(* ------------------------------------------------------------------------------------------ *)
+(* 9. identical structural innovations of one generation receive identical numbers             *)
+(* ------------------------------------------------------------------------------------------ *)
+(* the gene is the link some record of the current generation describes, under that record's number *)
+Definition link_recorded (e : ienv) (x : gene) : Prop :=
+  exists i, In i (innovs e) /\ i_type i = 2 /\ link_key x = (i_in i, i_out i, i_rec i) /\ g_innov x = i_num i.
+
+(* gene [old] was split around node id [nid] into genes numbered [n1] and [n2] as some record says *)
+Definition split_recorded (e : ienv) (old : gene) (nid n1 n2 : Z) : Prop :=
+  exists i, In i (innovs e) /\ i_type i = 1 /\ i_in i = g_in old /\ i_out i = g_out old /\ i_old i = g_innov old /\
+            i_num i = n1 /\ i_num2 i = n2 /\ i_node i = nid.
+
+Lemma link_recorded_incl e e' x : incl (innovs e) (innovs e') -> link_recorded e x -> link_recorded e' x.
+Proof. intros I (i & Hi & H). exists i. split; [now apply I|exact H]. Qed.
+
+Lemma split_recorded_incl e e' old nid n1 n2 :
+  incl (innovs e) (innovs e') -> split_recorded e old nid n1 n2 -> split_recorded e' old nid n1 n2.
+Proof. intros I (i & Hi & H). exists i. split; [now apply I|exact H]. Qed.
+
+Lemma env_extends_incl e e' : env_extends e e' -> incl (innovs e) (innovs e').
+Proof. intros [_ _ (added & -> & _)]. apply incl_appl, incl_refl. Qed.
+
+Theorem same_link_same_number C e R NR x y :
+  rok C e R NR -> link_recorded e x -> link_recorded e y -> link_key x = link_key y -> g_innov x = g_innov y.
+Proof.
+  intros RO (i & Hi & Ti & Ki & Ni) (j & Hj & Tj & Kj & Nj) E.
+  assert (i = j) by (apply (ro_lkey _ _ _ _ RO); auto; congruence). subst j. congruence.
+Qed.
+
+Theorem same_split_same_numbers C e R NR old old' nid nid' n1 n1' n2 n2' :
+  rok C e R NR -> split_recorded e old nid n1 n2 -> split_recorded e old' nid' n1' n2' ->
+  g_in old = g_in old' -> g_out old = g_out old' -> g_innov old = g_innov old' ->
+  nid = nid' /\ n1 = n1' /\ n2 = n2'.
+Proof.
+  intros RO (i & Hi & Ti & A1 & A2 & A3 & A4 & A5 & A6) (j & Hj & Tj & B1 & B2 & B3 & B4 & B5 & B6) E1 E2 E3.
+  assert (i = j) by (apply (ro_nkey _ _ _ _ RO); auto; congruence). subst j. repeat split; congruence.
+Qed.
+
+Lemma link_from_env_recorded g x s s' :
+  link_from_env g x s s' -> incl (innovs (s_env s)) (innovs (s_env s')) /\ link_recorded (s_env s') x.
+Proof.
+  intros [(inn & tr & Hf & _ & Hx & _ & Es)|(Hf & tn & w & tr & _ & Hx & Hin & Hni & Hnn)].
+  - apply fli_some in Hf. destruct Hf as (Hinn & Hty & Hi & Ho & Hr). rewrite Es. split; [apply incl_refl|].
+    exists inn. split; [exact Hinn|]. split; [exact Hty|]. split; [unfold link_key; congruence|].
+    rewrite Hx. reflexivity.
+  - unfold link_recorded. rewrite Hin. split; [apply incl_appl, incl_refl|]. eexists. split; [apply in_or_app; right; left; reflexivity|].
+    cbn. split; [reflexivity|]. split; [reflexivity|]. rewrite Hx. reflexivity.
+Qed.
+
+(* the gene mutateAddLink added (the one not in the genome before) is the recorded link *)
+Theorem add_link_recorded o g s g' b s' x :
+  mutate_add_link o g s = Ok ((g', b), s') -> In x (genes g') -> ~ In x (genes g) ->
+  incl (innovs (s_env s)) (innovs (s_env s')) /\ link_recorded (s_env s') x.
+Proof.
+  intros H Hx Hnew. apply add_link_inv in H.
+  destruct H as [(_ & -> & Es)|(_ & x0 & n1 & n2 & s1 & _ & _ & _ & _ & _ & Hs1 & Hfrom & ->)]; [contradiction|].
+  cbn [genes with_genes] in Hx. apply (insert_sorted_In g_innov) in Hx. destruct Hx as [->|Hx]; [|contradiction].
+  rewrite <- Hs1. exact (link_from_env_recorded g x0 s1 s' Hfrom).
+Qed.
+
+Lemma connect_fold_recorded sid g0 : forall outs g added stop s g' added' stop' s',
+    (forall x, In x (genes g) -> In x (genes g0) \/ link_recorded (s_env s) x) ->
+    foldM (connect_one sid) outs (g, added, stop) s = Ok ((g', added', stop'), s') ->
+    incl (innovs (s_env s)) (innovs (s_env s')) /\
+    (forall x, In x (genes g') -> In x (genes g0) \/ link_recorded (s_env s') x).
+Proof.
+  induction outs as [|out outs IH]; intros g added stop s g' added' stop' s' Hinv H; cbn [foldM] in H.
+  - minv. pairs. subst. split; [apply incl_refl|exact Hinv].
+  - minv. destruct a as [[g1 added1] stop1].
+    assert (Hstep : incl (innovs (s_env s)) (innovs (s_env s0)) /\
+                    (forall x, In x (genes g1) -> In x (genes g0) \/ link_recorded (s_env s0) x)).
+    { apply connect_one_inv in E.
+      destruct E as [(_ & -> & _ & _ & ->)|(_ & _ & [(-> & _ & _ & Es)|(x & _ & _ & _ & _ & Hfrom & -> & _ & _)])].
+      - split; [apply incl_refl|exact Hinv].
+      - rewrite Es. split; [apply incl_refl|exact Hinv].
+      - destruct (link_from_env_recorded g x s s0 Hfrom) as [I Hr]. split; [exact I|].
+        intros z Hz. cbn [genes with_genes] in Hz. apply (insert_sorted_In g_innov) in Hz.
+        destruct Hz as [->|Hz]; [now right|]. destruct (Hinv z Hz) as [Hz'|Hz']; [now left|right].
+        eapply link_recorded_incl; eauto. }
+    destruct Hstep as [I1 Hinv1]. destruct (IH _ _ _ _ _ _ _ _ Hinv1 H) as [I2 Hinv2].
+    split; [eapply incl_tran; eauto|exact Hinv2].
+Qed.
+
+Theorem connect_sensors_recorded g s g' b s' x :
+  mutate_connect_sensors g s = Ok ((g', b), s') -> In x (genes g') -> ~ In x (genes g) ->
+  incl (innovs (s_env s)) (innovs (s_env s')) /\ link_recorded (s_env s') x.
+Proof.
+  unfold mutate_connect_sensors. intros H Hx Hnew. destruct (genes g) as [|x0 gs0] eqn:Eg; [minv|].
+  rewrite <- Eg in H, Hnew. clear x0 gs0 Eg.
+  destruct (filter _ (filter is_sensor (nodes g))) as [|d0 ds] eqn:Edis.
+  { minv. pairs. subst. contradiction. }
+  rewrite <- Edis in H. minv. subst.
+  destruct a1 as [[g1 added] stop]. minv. pairs. subst.
+  match goal with H : foldM _ _ _ _ = Ok _ |- _ => rename H into Hfold end.
+  match goal with H : r_intn _ _ = Ok _ |- _ => apply ep_intn in H; rename H into Es0 end.
+  rewrite <- Es0.
+  destruct (connect_fold_recorded _ g _ _ _ _ _ _ _ _ _ (fun x Hx => or_introl Hx) Hfold) as [I Hinv].
+  split; [exact I|]. destruct (Hinv x Hx); [contradiction|assumption].
+Qed.
+
+(* a successful mutateAddNode split some gene as a record of the generation says *)
+Theorem add_node_recorded o g s g' s' :
+  mutate_add_node o g s = Ok ((g', true), s') ->
+  incl (innovs (s_env s)) (innovs (s_env s')) /\
+  exists k old nd n1 n2, nth_error (genes g) k = Some old /\ g' = split_genome g k old nd n1 n2 /\
+                         n_type nd = HIDDEN /\ split_recorded (s_env s') old (n_id nd) n1 n2.
+Proof.
+  intros H. apply add_node_inv in H.
+  destruct H as [(_ & Hb & _)|(k & x & Hk & _ & [(inn & t0 & Hf & _ & Es & [(_ & Hb & _)|(_ & _ & ->)])|
+                                                  (Hf & t0 & act & _ & _ & _ & -> & Hin & Hni & Hnn)])];
+    try discriminate.
+  - apply fni_some in Hf. destruct Hf as (Hinn & Hty & Hi & Ho & Hold). rewrite Es. split; [apply incl_refl|].
+    do 5 eexists. split; [exact Hk|]. split; [reflexivity|]. split; [reflexivity|].
+    exists inn. cbn [n_id]. repeat split; auto.
+  - unfold split_recorded. rewrite Hin. split; [apply incl_appl, incl_refl|].
+    do 5 eexists. split; [exact Hk|]. split; [reflexivity|]. split; [reflexivity|].
+    eexists. split; [apply in_or_app; right; left; reflexivity|]. cbn. repeat split.
+Qed.
+
+(* the mutators that add connection genes *)
+Inductive link_op : (genome -> @M st (genome * bool)) -> Prop :=
+| lo_add_link o : link_op (mutate_add_link o)
+| lo_connect : link_op mutate_connect_sensors.
+
+Lemma link_op_recorded op g s g' b s' x :
+  link_op op -> op g s = Ok ((g', b), s') -> In x (genes g') -> ~ In x (genes g) ->
+  incl (innovs (s_env s)) (innovs (s_env s')) /\ link_recorded (s_env s') x.
+Proof. intros [o|]; [apply add_link_recorded|apply connect_sensors_recorded]. Qed.
+
+Lemma link_op_reg C R NR op g s g' b s' :
+  link_op op -> rok C (s_env s) R NR -> g_agrees R g -> n_agrees NR g ->
+  op g s = Ok ((g', b), s') -> reg_step C (s_env s) (s_env s') R NR g g'.
+Proof. intros [o|]; [apply add_link_reg|apply connect_sensors_reg]. Qed.
+
+(* Two link-adding mutations of the same generation (the record of the first is still there when
+   the second runs, and the invariant holds before the second): genes they added for the same
+   ordered node pair and recurrence flag carry the same innovation number. *)
+Theorem same_generation_same_link_number C R NR op1 g1 s1 g1' b1 s1' op2 g2 s2 g2' b2 s2' x1 x2 :
+  link_op op1 -> link_op op2 ->
+  op1 g1 s1 = Ok ((g1', b1), s1') -> op2 g2 s2 = Ok ((g2', b2), s2') ->
+  incl (innovs (s_env s1')) (innovs (s_env s2)) ->
+  rok C (s_env s2) R NR -> g_agrees R g2 -> n_agrees NR g2 ->
+  In x1 (genes g1') -> ~ In x1 (genes g1) -> In x2 (genes g2') -> ~ In x2 (genes g2) ->
+  link_key x1 = link_key x2 -> g_innov x1 = g_innov x2.
+Proof.
+  intros L1 L2 H1 H2 I RO A N X1 N1 X2 N2 K.
+  destruct (link_op_recorded _ _ _ _ _ _ _ L1 H1 X1 N1) as [_ Rec1].
+  destruct (link_op_recorded _ _ _ _ _ _ _ L2 H2 X2 N2) as [I2 Rec2].
+  destruct (link_op_reg C R NR _ _ _ _ _ _ L2 RO A N H2) as (R' & NR' & _ & RO' & _).
+  apply (same_link_same_number C (s_env s2') R' NR' x1 x2 RO'); [|exact Rec2|exact K].
+  eapply link_recorded_incl; [|exact Rec1]. eapply incl_tran; eauto.
+Qed.
+
+(* Two successful node additions of the same generation that split the same gene (same endpoints,
+   same innovation number) create the same node id and the same two innovation numbers. *)
+Theorem same_generation_same_split C R NR o1 g1 s1 g1' s1' o2 g2 s2 g2' s2' :
+  mutate_add_node o1 g1 s1 = Ok ((g1', true), s1') -> mutate_add_node o2 g2 s2 = Ok ((g2', true), s2') ->
+  incl (innovs (s_env s1')) (innovs (s_env s2)) ->
+  rok C (s_env s2) R NR -> g_agrees R g2 -> n_agrees NR g2 ->
+  exists k1 old1 nd1 a1 c1 k2 old2 nd2 a2 c2,
+    nth_error (genes g1) k1 = Some old1 /\ g1' = split_genome g1 k1 old1 nd1 a1 c1 /\
+    nth_error (genes g2) k2 = Some old2 /\ g2' = split_genome g2 k2 old2 nd2 a2 c2 /\
+    (g_in old1 = g_in old2 -> g_out old1 = g_out old2 -> g_innov old1 = g_innov old2 ->
+     n_id nd1 = n_id nd2 /\ a1 = a2 /\ c1 = c2).
+Proof.
+  intros H1 H2 I RO A N.
+  destruct (add_node_recorded _ _ _ _ _ H1) as [_ (k1 & old1 & nd1 & a1 & c1 & Hk1 & E1 & _ & Rec1)].
+  destruct (add_node_recorded _ _ _ _ _ H2) as [I2 (k2 & old2 & nd2 & a2 & c2 & Hk2 & E2 & _ & Rec2)].
+  destruct (add_node_reg C R NR _ _ _ _ _ _ RO A N H2) as (R' & NR' & _ & RO' & _).
+  exists k1, old1, nd1, a1, c1, k2, old2, nd2, a2, c2. repeat (split; [assumption|]).
+  intros Ei Eo En. eapply (same_split_same_numbers C (s_env s2') R' NR'); eauto.
+  eapply split_recorded_incl; [|exact Rec1]. eapply incl_tran; eauto.
+Qed.
